@@ -386,6 +386,14 @@ def check(run: Run) -> None:
                         "published+added iff its child already has a value; the dictionary's key-set endpoint is stamped (copy and move siblings agree)"):
         insertion_tables(run, "C05.k")
 
+    with run.obligation("C05.l", "K4", "whole-collection move assignment of a set / dictionary decides which elements to DROP from the current members only: the scan "
+                        "filters with slot_live (a slot pending its physical erase is freed by the window roll and re-used by a new key of the source; queued for removal "
+                        "it would take that new key out again)"):
+        R.membership_scans(run, "C05.l", [
+            ("src/hgraph/types/time_series/ts_data/dict_view.cpp", "move_value_from", "TSDDataMutationView", "keys to drop = current keys absent from the source"),
+            (SLOT, "tss_move_value_from", None, "elements to drop = current elements absent from the source"),
+        ])
+
     with run.obligation("C05.i", "K2", "the mutation views of sets and dictionaries never mark the series modified at a new time without a storage operation that rolled the "
                         "delta window for that time (touch / insert / remove ... taking current_mutation_time()): otherwise the tick re-reports the added / removed "
                         "elements of an earlier cycle (clear() of an already-empty collection is the boundary case)"):
@@ -451,6 +459,7 @@ def check(run: Run) -> None:
 
 
 VARIANTS = [
+    {"id": "l-seed-C05-5-move-scan-occupied", "expect": "C05.l", "edits": [{"file": "src/hgraph/types/time_series/ts_data/dict_view.cpp", "find": "            if (!slot_live(slot)) { continue; }\n            auto key = key_at_slot(slot);\n            if (!source_map.contains(key)) { removals.push_back(slot); }", "replace": "            if (!slot_occupied(slot)) { continue; }\n            auto key = key_at_slot(slot);\n            if (!source_map.contains(key)) { removals.push_back(slot); }"}]},
     {"id": "k-set-insert-always-adds", "expect": "C05.k", "edits": [{"file": SLOT, "find": "                if (slot_removed(result.slot)) { removed_.reset(result.slot); }\n                else { added_.set(result.slot); }\n                return mutation_result(result.slot, result.constructed);\n            }\n\n            [[nodiscard]] SlotTSDataMutationResult insert_key_move", "replace": "                if (slot_removed(result.slot)) { removed_.reset(result.slot); }\n                added_.set(result.slot);\n                return mutation_result(result.slot, result.constructed);\n            }\n\n            [[nodiscard]] SlotTSDataMutationResult insert_key_move"}]},
     {"id": "k-dict-new-key-added-before-value", "expect": "C05.k", "edits": [{"file": SLOT, "find": "                else if (child_valid(result.slot))\n                {\n                    value_published_.set(result.slot);\n                    added_.set(result.slot);\n                }\n                (void)key_set_tracking_.record_modified(modified_time);\n                return mutation_result(result.slot, result.constructed);\n            }\n\n            [[nodiscard]] SlotTSDataMutationResult remove_key", "replace": "                else\n                {\n                    value_published_.set(result.slot);\n                    added_.set(result.slot);\n                }\n                (void)key_set_tracking_.record_modified(modified_time);\n                return mutation_result(result.slot, result.constructed);\n            }\n\n            [[nodiscard]] SlotTSDataMutationResult remove_key"}]},
     {"id": "j-move-registers-already-ticked-child", "expect": "C05.j", "edits": [{"file": "src/hgraph/types/metadata/ts_data_dynamic_list_ops.cpp", "find": "                    if (!ops.move_value_from_impl(ops.context, data, std::move(source_child), modified_time))\n                    {\n                        continue;\n                    }\n                    auto *tracking = ops.mutable_tracking_impl(ops.context, data);\n                    if (tracking == nullptr) { throw std::logic_error(\"dynamic TSL child has no tracking record\"); }\n                    if (!tracking->record_modified(modified_time))\n                    {\n                        throw std::logic_error(\"dynamic TSL child reported a duplicate modification\");\n                    }", "replace": "                    const bool child_first =\n                        ops.move_value_from_impl(ops.context, data, std::move(source_child), modified_time);\n                    auto *tracking = ops.mutable_tracking_impl(ops.context, data);\n                    if (tracking == nullptr) { throw std::logic_error(\"dynamic TSL child has no tracking record\"); }\n                    if (tracking->record_modified(modified_time) != child_first)\n                    {\n                        throw std::logic_error(\"dynamic TSL child reported an inconsistent modification\");\n                    }"}]},
